@@ -45,11 +45,22 @@ def park_writer(r, state, sync_off):
         r.sql("w1", "BEGIN IMMEDIATE")
         r.sql("w1", "UPDATE meta SET v = v + 100")
         r.sql("w1", "UPDATE t SET b = b || 'spill spill spill spill'")
+    elif state == "KILLED_SPILL":
+        # the writer dies while EXCLUSIVE with spilled pages in the file and a synced journal: nobody holds a lock any
+        # more, the file holds uncommitted pages -- a reader must refuse (hot journal) or deliver committed content
+        r.sql("w1", "PRAGMA cache_size=1")
+        r.sql("w1", "BEGIN IMMEDIATE")
+        r.sql("w1", "UPDATE meta SET v = v + 100")
+        r.sql("w1", "UPDATE t SET b = b || 'spill spill spill spill'")
+        r.kill("w1")
     else:
         raise Infra(state)
 
 
 def release_writer(r, state):
+    if state == "KILLED_SPILL":
+        r.sql("w2", "SELECT count(*) FROM t")          # real SQLite rolls the hot journal back
+        return
     if state == "SHARED":
         r.cursor("w1", False)
     elif state == "PENDING":
@@ -61,7 +72,7 @@ def release_writer(r, state):
 
 def sched_writer_states(h, d, tier):
     out = []
-    states = ["UNLOCKED", "SHARED", "RESERVED", "RESERVED_DIRTY", "PENDING", "EXCLUSIVE", "EXCLUSIVE_SPILL"]
+    states = ["UNLOCKED", "SHARED", "RESERVED", "RESERVED_DIRTY", "PENDING", "EXCLUSIVE", "EXCLUSIVE_SPILL", "KILLED_SPILL"]
     combos = []
     for st in states:
         for sync_off in (False, True):
@@ -70,6 +81,8 @@ def sched_writer_states(h, d, tier):
     for i, (st, sync_off, aged) in enumerate(combos):
         if tier == "quick" and sync_off and st in ("UNLOCKED", "SHARED", "EXCLUSIVE"):
             continue
+        if st == "KILLED_SPILL" and not aged:
+            continue          # a fresh Open of a file with a hot journal is refused outright (C09 covers it)
         r = lockrun.Runner(h, c06.fresh(d, "st-%d" % i), "sep")
         try:
             if aged:
